@@ -270,6 +270,20 @@ class Driver:
         except Exception as e:     # the outcome of the accessor under test
             return {"raises": type(e).__name__, "val": enc(None)}
 
+    def other_state(self, fn):
+        """history, not judged: fn() runs while the first boundary reaction is closed; the bounds are put back"""
+        b = [r for r in self.rx if r.boundary]
+        if not b:
+            return
+        old = b[0].bounds
+        try:
+            b[0].bounds = (0, 0)
+            fn()
+        except Exception:
+            pass
+        finally:
+            b[0].bounds = old
+
     # ---- steps
     def step(self, s):
         m = self.model
@@ -370,6 +384,8 @@ class Driver:
             from cobra.flux_analysis import find_blocked_reactions
             if {r.id for r in m.exchanges} != {r.id for r in m.reactions if r.boundary}:
                 raise C.Machinery("palette assumption broken: model.exchanges is not the set of boundary reactions")
+            if s.get("pre") == "other":
+                self.other_state(lambda: find_blocked_reactions(m, open_exchanges=bool(s["open"]), processes=1))
             if s.get("pre") == "failed":
                 try:
                     find_blocked_reactions(m, reaction_list=[self.rids[0], "no_such_reaction"], open_exchanges=True, processes=1)
@@ -382,6 +398,8 @@ class Driver:
             return {"raises": "none", "ids": [self.pos(getattr(i, "id", i)) for i in ids]}
         if op == "fastcc":
             from cobra.flux_analysis import fastcc
+            if s.get("pre") == "other":
+                self.other_state(lambda: fastcc(m))
             try:
                 res = fastcc(m)
             except Exception as e:
@@ -402,6 +420,8 @@ class Driver:
             from cobra.util.solver import fix_objective_as_constraint
             start = []
             try:
+                if s.get("pre") == "other":
+                    self.other_state(lambda: loopless_solution(m))
                 if s["start"] == "none":
                     sol = loopless_solution(m)
                 else:
